@@ -17,13 +17,14 @@ structure Inv (s : St) : Prop where
   nc : s.closedCh = []
   np : s.panicked = false
   nw : s.wiped = false
+  nl : s.latePush = false
   lt : ∀ k ∈ s.stopSig, k < s.next
   flt : ∀ k, s.field = some k → k < s.next
   run : ∀ k, s.field = some k → s.live = [k] ∧ k ∉ s.stopSig
   idle : s.field = none → (∀ k ∈ s.live, k ∈ s.stopSig) ∧ s.live.length ≤ 1
 
 theorem inv_init : Inv {} := by
-  refine ⟨rfl, rfl, rfl, rfl, ?_, ?_, ?_, ?_⟩ <;> simp
+  refine ⟨rfl, rfl, rfl, rfl, rfl, ?_, ?_, ?_, ?_⟩ <;> simp
 
 theorem inv_step {s s' : St} (h : Inv s) (l : Label) (hs : step s l = some s') : Inv s' := by
   have hr := h.rp
@@ -34,7 +35,7 @@ theorem inv_step {s s' : St} (h : Inv s) (l : Label) (hs : step s l = some s') :
       cases hs
       have hf : s.field = none := by simp at hc; exact hc.1
       have hl : s.live = [] := by simp at hc; exact hc.2
-      refine ⟨rfl, h.nc, h.np, h.nw, ?_, ?_, ?_, ?_⟩
+      refine ⟨rfl, h.nc, h.np, h.nw, h.nl, ?_, ?_, ?_, ?_⟩
       · intro k hk; have := h.lt k hk; simp; omega
       · intro k hk; simp at hk; subst hk; simp
       · intro k hk; simp at hk; subst hk
@@ -47,7 +48,7 @@ theorem inv_step {s s' : St} (h : Inv s) (l : Label) (hs : step s l = some s') :
     | some k =>
       simp only [hf] at hs; cases hs
       obtain ⟨hl, hk⟩ := h.run k hf
-      refine ⟨rfl, h.nc, h.np, h.nw, ?_, ?_, ?_, ?_⟩
+      refine ⟨rfl, h.nc, h.np, h.nw, h.nl, ?_, ?_, ?_, ?_⟩
       · intro j hj; simp at hj
         rcases hj with hj | hj
         · subst hj; exact h.flt j hf
@@ -59,14 +60,15 @@ theorem inv_step {s s' : St} (h : Inv s) (l : Label) (hs : step s l = some s') :
         intro j hj; simp [hl] at hj; subst hj; simp
   case sendCheck =>
     split at hs
-    · cases hs; exact ⟨rfl, h.nc, h.np, h.nw, h.lt, h.flt, h.run, h.idle⟩
+    · cases hs; exact ⟨rfl, h.nc, h.np, h.nw, h.nl, h.lt, h.flt, h.run, h.idle⟩
     · cases hs
   case sendWake =>
     split at hs
     · split at hs <;> cases hs
-      · refine ⟨rfl, h.nc, ?_, h.nw, h.lt, h.flt, h.run, h.idle⟩
+      · refine ⟨rfl, h.nc, ?_, h.nw, h.nl, h.lt, h.flt, h.run, h.idle⟩
         simp [h.np, h.nc]
-      · exact ⟨rfl, h.nc, h.np, h.nw, h.lt, h.flt, h.run, h.idle⟩
+      · refine ⟨rfl, h.nc, h.np, h.nw, ?_, h.lt, h.flt, h.run, h.idle⟩
+        simp [h.nl]
     · cases hs
   case pumpLoop k => simp at hs
   case pumpExit k =>
@@ -86,7 +88,7 @@ theorem inv_step {s s' : St} (h : Inv s) (l : Label) (hs : step s l = some s') :
             rw [hl] at hkl; simp at hkl; subst hkl
             exact absurd hks hj
         obtain ⟨hall, hlen⟩ := h.idle hfn
-        refine ⟨rfl, h.nc, h.np, ?_, h.lt, ?_, ?_, ?_⟩
+        refine ⟨rfl, h.nc, h.np, ?_, h.nl, h.lt, ?_, ?_, ?_⟩
         · simp [h.nw, hfn]
         · intro j hj; simp [hfn] at hj
         · intro j hj; simp [hfn] at hj
@@ -113,6 +115,9 @@ theorem never_panics (ls : List Label) (s : St) (h : runL {} ls = some s) : s.pa
 
 /-- a leaving message pump never resets the queue or the channel of a session that is running -/
 theorem never_wiped (ls : List Label) (s : St) (h : runL {} ls = some s) : s.wiped = false := (inv_run ls s h).nw
+
+/-- no request is pushed into the queue of a stopped dispatcher (it would go out in the next session) -/
+theorem never_late_push (ls : List Label) (s : St) (h : runL {} ls = some s) : s.latePush = false := (inv_run ls s h).nl
 
 /-- at most one message pump is alive -/
 theorem one_pump (ls : List Label) (s : St) (h : runL {} ls = some s) : s.live.length ≤ 1 := by
@@ -145,6 +150,10 @@ theorem old_restart_wiped :
 theorem old_two_pumps :
     (runL { repaired := false } [.start, .stop, .start, .pumpLoop 0]).map (fun s => (s.live, s.serving)) =
       some ([1, 0], [(0, 1), (1, 1)]) := by decide
+
+/-- before be75cb6: a sender that passed the `IsRunning` check pushes after `Stop` -/
+theorem old_late_push :
+    (runL { repaired := false } [.start, .sendCheck, .stop, .pumpExit 0, .sendWake]).map (·.latePush) = some true := by decide
 
 /-- non-vacuity: a stop and a restart with senders in between -/
 example : (runL {} [.start, .sendCheck, .stop, .sendWake, .pumpExit 0, .start, .sendCheck, .sendWake]).map
